@@ -138,6 +138,46 @@ def callee_of(t):
     return None, t.get("fty", "?"), None
 
 
+ANCHORS = os.path.join(VERIF, "tables", "anchors.json")
+
+
+def _fn_sig(b):
+    """signature of a function body without its own name: (parent path, type of the function item with the `{path}` suffix removed)"""
+    ty = b.get("fn_ty") or ""
+    ty = re.sub(r"\s*\{[^{}]*(\{[^{}]*\})?[^{}]*\}\s*$", "", ty)
+    return b["path"].rsplit("::", 1)[0], ty, b.get("kind", "")
+
+
+def anchor_renames(d, pkg):
+    """{current pretty path / id -> the path / id the frozen anchor table knows} for functions that were merely renamed"""
+    try:
+        anchors = json.load(open(ANCHORS)).get(pkg)
+    except Exception:
+        anchors = None
+    if not anchors:
+        return {}
+    cur = {b["path"]: b for b in d["bodies"] if b.get("kind") in ("fn", "assoc_fn") and "{closure" not in b["path"]}
+    missing = [p_ for p_ in anchors if p_ not in cur]
+    extra = [p_ for p_ in cur if p_ not in anchors]
+    if not missing or not extra:
+        return {}
+    by_sig = collections.defaultdict(list)
+    for p_ in extra:
+        by_sig[tuple(_fn_sig(cur[p_]))].append(p_)
+    want = collections.defaultdict(list)
+    for p_ in missing:
+        want[tuple(anchors[p_]["sig"])].append(p_)
+    out = {}
+    for sig, olds in want.items():
+        news = by_sig.get(sig, [])
+        if len(olds) == 1 and len(news) == 1:
+            canon, now = olds[0], news[0]
+            out[now] = canon
+            nid = cur[now]["id"]
+            out[nid] = nid.rsplit("::", 1)[0] + "::" + canon.rsplit("::", 1)[1]
+    return out
+
+
 class Facts:
     def __init__(self, directory):
         self.dir = directory
@@ -148,9 +188,18 @@ class Facts:
         self.adts = {}
         self.registries = {}
         self.impls = []
+        self.renamed = {}
         for name, fn in self.meta["crates"].items():
             d = json.load(open(os.path.join(directory, fn)))
             pkg = d.get("pkg") or name.split(".")[0]
+            ren = anchor_renames(d, pkg)
+            if ren:
+                # a function was renamed (same module / impl, same signature, one missing and one new): read the facts under the name the rules know
+                txt = open(os.path.join(directory, fn)).read()
+                for old, new in sorted(ren.items(), key=lambda kv: -len(kv[0])):
+                    txt = re.sub(re.escape(json.dumps(old)[1:-1]) + r"(?![\w])", lambda m_, new=new: json.dumps(new)[1:-1], txt)
+                d = json.loads(txt)
+                self.renamed.update(ren)
             self.crates[name] = d
             for b in d["bodies"]:
                 body = Body(b, d["crate"], pkg)
